@@ -108,7 +108,7 @@ func (g *icaWorld) history(nops int) {
 			in := merge(M{"f": "init", "owner": Pick(r, g.owners), "conn": "cconn", "order": ord()}, g.version())
 			switch r.Intn(6) {
 			case 0:
-				in["port"] = "transfer" + g.prefix // no controller prefix (unrouted): core refuses
+				in["port"] = "icacontroller" + g.prefix // routed to the controller module, but no "icacontroller-" prefix
 			case 1:
 				in["cpPort"] = "transfer"
 			}
@@ -152,7 +152,7 @@ func icaExecRequest(r *Rng) M {
 	if r.Chance(0.7) {
 		n = 1 + r.Intn(4)
 	}
-	var msgs []M
+	msgs := []M{}
 	for i := 0; i < n; i++ {
 		kind := Pick(r, []string{"send", "send", "send", "multisend", "transfer"})
 		signer := Pick(r, []string{"ica", "ica", "ica", "ica", "sender", "other"})
